@@ -25,13 +25,17 @@ for d in sorted(glob.glob("/verif/seeded/C*-*/")):
         keys = re.findall(r"VIOLATED (R[\w.]+) (\S+) \[([^\]]+)\]", r.stdout)
         verdict = {0: "MISSED (exit 0)", 1: "caught", 2: "analysis error"}.get(r.returncode, str(r.returncode))
         rules = ", ".join(sorted({f"{k[0]} {k[2]}" for k in keys}))[:300]
-        rows.append((meta["id"], meta["property"], verdict, rules))
+        note = meta.get("expected", "") if r.returncode != 1 else ""
+        if meta.get("at_head") and r.returncode != 1:
+            note = (note + "; " if note else "") + meta["at_head"]
+        rows.append((meta["id"], meta["property"], verdict, rules or note[:400]))
     finally:
         sh("git", "-C", "/repo", "checkout", "--", ".")
-with open("/verif/seeded/RESULTS.md", "w") as f:
-    f.write("| seeded change | property | quick check | reported rule / function |\n|---|---|---|---|\n")
-    for row in rows:
-        f.write("| " + " | ".join(row) + " |\n")
+if not only:
+    with open("/verif/seeded/RESULTS.md", "w") as f:
+        f.write("| seeded change | property | quick check | reported rule / function (or why it is not reported) |\n|---|---|---|---|\n")
+        for row in rows:
+            f.write("| " + " | ".join(row) + " |\n")
 for row in rows:
     print(*row, sep=" | ")
 import shutil; shutil.rmtree(scratch, ignore_errors=True)
